@@ -196,18 +196,23 @@ Definition probe_specb (p : params) (live : list (Z * vec)) (im : vstate) (rq : 
            (r : list (Z * Z)) : bool :=
   let cents := st_centroids im in
   let np := r_nprobes rq in
-  if negb ((0 <? np) && (np <? Z.of_nat (length cents))) then true
-  else
+  let partial := (0 <? np) && (np <? Z.of_nat (length cents)) in
     let cdk := map (fun c => F32.key (F32.canon (dist (p_metric p) pq c))) cents in
-    let dp := nth (Z.to_nat (np - 1)) (isort (fun x => x) cdk) 0 in
+    (* with every cell probed the bound lies above all of them: the answer is then held against ALL eligible
+       live vectors -- "exactly what exact search returns" *)
+    let dp := if partial then nth (Z.to_nat (np - 1)) (isort (fun x => x) cdk) 0 else fold_left Z.max cdk 0 + 1 in
     let keyof := fun li => nth (Z.to_nat li) cdk 0 in
     forallb (fun x => match find_entry im (fst x) with
                       | Some (li, _) => keyof li <=? dp
                       | None => false
                       end) r &&
-    (negb (r_cutoff rq =? -1) ||
-     let lastk := F32.key (snd (last r (0, 0))) in
-     let fullk := (0 <? r_k rq) && (Z.of_nat (length r) =? r_k rq) in
+    (let lastk := F32.key (snd (last r (0, 0))) in
+     (* without autocut the answer is the whole top-k; with it, a prefix of that ranking (possibly empty):
+        either way nothing strictly better than the last returned hit may be missing *)
+     let fullk := if r_cutoff rq =? -1 then (0 <? r_k rq) && (Z.of_nat (length r) =? r_k rq)
+                  else match r with [] => false | _ => true end in
+     let may_be_empty := negb (r_cutoff rq =? -1) && match r with [] => true | _ => false end in
+     may_be_empty ||
      forallb (fun lv =>
         match find_entry im (fst lv) with
         | Some (li, _) =>
